@@ -654,7 +654,7 @@ class KnownValue(Value):
         # Make sure e.g. 1 and True are handled differently.
         try:
             return hash((type(self.val), self.val))
-        except TypeError:
+        except Exception:
             # If the value is not directly hashable, hash only its type. __eq__ compares
             # such values by equality, not identity, and x == y must imply
             # hash(x) == hash(y), or equal literals are not merged when values are united.
@@ -1261,7 +1261,7 @@ class SequenceValue(GenericValue):
             known_members.append(member.val)
         try:
             return KnownValue(typ(known_members))
-        except TypeError:
+        except Exception:
             # Probably an unhashable object in a set.
             return SequenceValue(typ, members)
 
@@ -2024,7 +2024,7 @@ class MultiValuedValue(Value):
                 for subval in self.vals
                 if isinstance(subval, KnownValue)
             }
-        except TypeError:
+        except Exception:
             return None  # not hashable
         else:
             # Make remaining check not consider the KnownValues again
@@ -2063,7 +2063,7 @@ class MultiValuedValue(Value):
                 known_values, my_vals = self._known_subvals
                 try:
                     is_present = (other.val, type(other.val)) in known_values
-                except TypeError:
+                except Exception:
                     pass  # not hashable
                 else:
                     if is_present:
@@ -3172,7 +3172,8 @@ class _HashableValue(TypedValue):
                 hash(other.val)
             except Exception as e:
                 return CanAssignError(
-                    f"{other.val!r} is not hashable", children=[CanAssignError(repr(e))]
+                    f"{safe_repr(other.val)} is not hashable",
+                    children=[CanAssignError(safe_repr(e))],
                 )
             else:
                 return {}
